@@ -5,15 +5,17 @@ EXTENDS Container, Json
 
 CONSTANTS MaxLen,   \* operations per history
           MaxQ,     \* bound on the queue length
+          MaxC,     \* bound on the number of containers of one history
           Emit      \* print finished histories as JSON
 
-VARIABLES q, hist, init, done
-vars == <<q, hist, init, done>>
+VARIABLES qs, hist, init, done
+vars == <<qs, hist, init, done>>
 
-InitParts == PartLists \cup { << <<200, 1, 4>>, <<>> >>, << <<128>>, <<1>>, <<3, 1, 2, 3, 4>> >> }
+InitParts == PartLists \cup { << <<200, 1, 4>>, <<>> >>, << <<128>>, <<1>>, <<3, 1, 2, 3, 4>> >>,
+                              << <<65, 65, 65, 65, 66, 66, 66, 66, 67, 67, 67, 67>> >> }
 
 Init == /\ init \in InitParts
-        /\ q = Flat(init)
+        /\ qs = << Flat(init) >>
         /\ hist = <<>>
         /\ done = FALSE
 
@@ -21,22 +23,30 @@ Init == /\ init \in InitParts
 \* enumerated: families are equally likely and TLC computes one or two successors instead of hundreds.
 Pick(S) == IF Emit THEN {RandomElement(S)} ELSE S
 
+Families == Family \cup (IF Len(qs) >= 2 THEN {"existing"} ELSE {})
+Candidates(f, c) == IF f = "existing" THEN ExistingOps(qs, c)
+                    ELSE { On(o, c, k) : o \in OpsOf(f, qs[c]),
+                                         k \in (IF f \in {"sized", "varint", "plain"} /\ Len(qs) < MaxC THEN BOOLEAN ELSE {FALSE}) }
+
 DoOp == /\ Len(hist) < MaxLen
-        /\ \E f \in Pick(Family) : \E o \in Pick(OpsOf(f, q)) : \E x \in Step(q, o) :
-              /\ Len(x.q) <= MaxQ
-              /\ q' = x.q
-              /\ hist' = Append(hist, [op |-> o, res |-> x.res, len |-> Len(x.q)])
+        /\ \E c \in Pick(1..Len(qs)) : \E f \in Pick(Families) : \E o \in Pick(Candidates(f, c)) : \E x \in MStep(qs, o) :
+              /\ \A i \in 1..Len(x.qs) : Len(x.qs[i]) <= MaxQ
+              /\ qs' = x.qs
+              /\ hist' = Append(hist, [op |-> o, res |-> x.res, len |-> Len(x.qs[c])])
         /\ UNCHANGED <<init, done>>
 
 Finish == /\ Len(hist) = MaxLen /\ ~done
           /\ done' = TRUE
           /\ (Emit => PrintT(<<"@@", ToJson([init |-> init, steps |-> hist])>>))
-          /\ UNCHANGED <<q, hist, init>>
+          /\ UNCHANGED <<qs, hist, init>>
 
 Next == DoOp \/ Finish
 Spec == Init /\ [][Next]_vars
 
-\* the reference semantics itself is a faithful queue, for every state and operation
-SemOK == \A o \in Ops(q) : ReadIsPrefix(q, o) /\ FramedReadInside(q, o) /\ Step(q, o) # {}
-View == <<q, Len(hist), done>>
+\* the reference semantics itself is a faithful queue, for every state and operation, and containers
+\* do not influence each other
+SemOK == \A c \in 1..Len(qs) :
+            /\ \A o \in Ops(qs[c]) : ReadIsPrefix(qs[c], o) /\ FramedReadInside(qs[c], o) /\ Step(qs[c], o) # {}
+            /\ \A f \in Families : \A o \in Candidates(f, c) : OthersUntouched(qs, o) /\ MStep(qs, o) # {}
+View == <<qs, Len(hist), done>>
 ====
